@@ -218,6 +218,9 @@ pub fn run(out: &mut Out, tier: &str, seed: u64) {
     let n = if tier == "thorough" { 40000 } else { 4000 };
     // 1. raw terms: unrelated pairs, self pairs, punched patterns, under random definitions contexts
     for k in 0..n {
+        // one generator state per case, so that skipping a case (see `Out::begin`) does not shift the others
+        let mut rng = Rng::new(seed ^ 0xC12 ^ (k as u64 + 1).wrapping_mul(0x9E37_79B9_7F4A_7C15));
+        if !out.begin(&format!("unify-suite raw case {k} (tier {tier}, seed {seed})")) { out.stat("skipped-known-abort"); continue; }
         let g = TermGen { holes: false, max_var: 0, big_lits: k % 7 == 0, closed: k % 11 != 0 };
         let len = rng.below(4);
         let mut dctx = gen_dctx(&mut rng, len);
